@@ -33,6 +33,7 @@ struct R3Monitor {
     Bytes bytes;
     Bytes token;
     uint64_t t_ack = 0, t_rst = 0;          // first delivery of matching ACK / RST
+    bool ack_maybe = false;                 // an ACK/RST with this mid sat in the socket in the instant of the first transmission
     uint64_t t_resp = 0;                    // first delivery of a separate response carrying the request's token
     bool is_request = false;
     int nacks = 0;
@@ -102,7 +103,9 @@ struct R3Monitor {
         // seen the message, e.g. a spoofed or mis-numbered one) is read by libcoap right after this first transmission of the
         // same I/O pass and legitimately concludes it.
         auto ei = early.find(k);
-        if (ei != early.end() && ei->second.first == e.t_ns) { if (ei->second.second == 2) tx.t_ack = e.t_ns; else tx.t_rst = e.t_ns; w.count("probe.ack_before_first_transmission_same_instant"); }
+        // ... or was read just before it and ignored: either way is right, so the message may stop without a further outcome
+        // (ack_maybe) but is not held to it.
+        if (ei != early.end() && ei->second.first == e.t_ns) { tx.ack_maybe = true; w.count("probe.ack_before_first_transmission_same_instant"); }
       } else {
         if (tx.t_resp && e.t_ns > tx.t_resp) violate(tx, k, "tx_after_response", strfmt("request transmitted %.3f ms after its response was delivered", (e.t_ns - tx.t_resp) / 1e6));
         if (tx.bytes != b) violate(tx, k, "not_byte_identical", "retransmission differs from first transmission");
@@ -198,7 +201,7 @@ struct R3Monitor {
     for (auto &kv : m) {
       if (kv.first.node != node) continue;
       Tx &tx = kv.second;
-      if (tx.t_ack || tx.t_rst || tx.t_resp || tx.nacks || tx.session_gone || tx.t.empty()) continue;
+      if (tx.t_ack || tx.t_rst || tx.t_resp || tx.nacks || tx.session_gone || tx.t.empty() || tx.ack_maybe) continue;
       if (exempt_tokens.count(tx.token)) continue;
       Params p = par(node, kv.first.dst);
       double gap_ms = tx.t.size() == 1 ? (p.at_ms + 8) * (p.rf + 1.0 / 128) + 8 : tx.Thi * (double)(1u << (tx.t.size() - 1));
@@ -230,7 +233,7 @@ struct R3Monitor {
       } else if (tx.t_rst) {
         if (tx.nacks != 1) violate(tx, k, "rst_outcome", strfmt("RST delivered but %d NACK calls", tx.nacks));
       } else {
-        if (tx.nacks != 1) violate(tx, k, "no_outcome", strfmt("neither ACK nor RST arrived and %d NACK calls at quiescence (%zu transmissions)", tx.nacks, tx.t.size()));
+        if (tx.nacks != 1 && !(tx.ack_maybe && tx.nacks == 0)) violate(tx, k, "no_outcome", strfmt("neither ACK nor RST arrived and %d NACK calls at quiescence (%zu transmissions)", tx.nacks, tx.t.size()));
       }
     }
   }
